@@ -519,6 +519,9 @@ static std::string sections_text(Tbl &tbl) {
           else if (x.kind == "ltreserve") out += "m reserve 0 " + std::to_string(x.a) + "\t*\n";
           else if (x.kind == "ltclear") out += "m clear 0\t*\n";
           else if (x.kind == "ltsize") out += "m stats 0\t*\n";
+          else if (x.kind == "ltsave") out += "m write 0\t*\n";                        // os << lt  (the image is kept in wire 0)
+          else if (x.kind == "ltload") out += "m read 0 0\t*\n";                       // is >> lt
+          else if (x.kind == "ltstream") out += "m write 0\t*\nm read 0 0\t*\n";       // the table's own image extracted into itself
           else { g_sec_unsupported = x.kind; return ""; }
         }
         out += "m unlock 0\t*\n";
